@@ -40,3 +40,52 @@ package shplonk
 //@ ensures[pairing] isnil(result) ==> pairok && npair == 1
 //@ modifies nothing
 //@ end
+
+// deriveChallenge: a Fiat-Shamir challenge of the scheme binds, in this order and with nothing skipped or repeated:
+// every point of every point set (set by set, point by point), every digest, every item of the caller's transcript
+// data - each point and digest through its own Marshal() - and is computed only then (a ghost automaton over the
+// four loops; the rows of the point sets are functions of the row index). What Bind and ComputeChallenge do with the
+// values is the contract of the transcript (C15).
+
+//@ func deriveChallenge
+//@ layer ring fr.Element
+//@ option opaque-calls
+//@ option struct-slices
+//@ option functional-nested-slices
+//@ option nomerge
+//@ ghost stage = 0
+//@ ghost pi = 0
+//@ ghost pj = 0
+//@ ghost nd = 0
+//@ ghost nt = 0
+//@ ghost mok = false
+//@ cut after call Marshal #*
+//@ + ghost mok = (stage == 1 && *callarg0 == points[pi][pj]) || (stage == 2 && same(callarg0, digests[nd]))
+//@ cut before call Bind #*
+//@ + invariant[bound-value] (stage <= 2 ==> mok && called(Marshal) && same(callarg2, resultof_Marshal)) && (stage == 3 ==> same(callarg2, dataTranscript[nt]))
+//@ cut after call Bind #*
+//@ + ghost pj = ite(stage == 1, pj + 1, pj)
+//@ + ghost nd = ite(stage == 2, nd + 1, nd)
+//@ + ghost nt = ite(stage == 3, nt + 1, nt)
+//@ + ghost mok = false
+//@ loop 0
+//@ + ghost stage = 1
+//@ + ghost pj = 0
+//@ + ghost-post pi = rangeindex + 1
+//@ + invariant[point-sets] -1 <= rangeindex && rangeindex < len(points) && nd == 0 && nt == 0
+//@ + backedge[whole-set-bound] pj == len(points[pi])
+//@ loop 1
+//@ + invariant[points] pj == rangeindex + 1 && -1 <= rangeindex && rangeindex < len(points[pi]) && stage == 1 && 0 <= pi && pi < len(points) && nd == 0 && nt == 0
+//@ + havoc pj
+//@ loop 2
+//@ + ghost stage = 2
+//@ + invariant[digests] nd == rangeindex + 1 && -1 <= rangeindex && rangeindex < len(digests) && nt == 0 && pi == len(points)
+//@ + havoc nd
+//@ loop 3
+//@ + ghost stage = 3
+//@ + invariant[transcript-data] nt == i && 0 <= i && i <= len(dataTranscript) && nd == len(digests) && pi == len(points)
+//@ + havoc nt
+//@ cut before call ComputeChallenge #1
+//@ + invariant[everything-bound] stage == 3 && pi == len(points) && nd == len(digests) && nt == len(dataTranscript)
+//@ modifies nothing
+//@ end
